@@ -574,7 +574,7 @@ def cfg_summary(spec: dict) -> dict:
             "cutoff": int(any(w[0] == "cutoff" for w in spec.get("wrappers", []))),
             "wcount": sum(1 for w in spec.get("wrappers", []) if w[0] in ("count", "cutoff", "precision")),
             "idlecheck": int(bool(spec.get("idlecheck", True))),
-            "manual": int((spec.get("drive") or ["run"])[0] not in ("run", "interleaved")),
+            "manual": int((spec.get("drive") or ["run"])[0] not in ("run", "interleaved", "hms")),
             "phases": int((spec.get("drive") or ["run"])[0] == "phases"),
             "cache": int(bool(spec.get("use_cache", False))),
             "skipsame": int(spec["sprout"].get("skip_same", False) or any(f[0] == "skipsame" for f in spec["sprout"].get("tree_filters", []))),
